@@ -244,7 +244,10 @@ class Parser:
             args = [self.type_arg()]
             while self.opt(","):
                 args.append(self.type_arg())
-            self.eat(">")
+            if self.at(">>"):
+                self.t[self.i] = ("op", ">")   # `A<B<C>>`: the first half closes the inner list
+            else:
+                self.eat(">")
             full = f"{name}<{','.join(args)}>"
             return self.tymap.get(full, full)
         return self.tymap.get(name, name)
@@ -751,6 +754,10 @@ class Gen:
             return f"(¬ {self.cond(e[2], env)})"
         if e[0] == "var" and e[1] in env and env[e[1]][1] == "bool":
             return f"({env[e[1]][0]} = true)"
+        if e[0] == "mcall" and e[2] in ("contains", "is_empty"):
+            l, t = self.pure(e, env)
+            if t == "bool":
+                return f"({l} = true)"
         if e[0] == "mcall" and e[2] == "is_multiple_of" and len(e[3]) == 1:
             l, lt = self.pure(e[1], env)
             a_ = self.strip(e[3][0])
@@ -857,6 +864,8 @@ class Gen:
                 raise Unsupported(f"{e[1][1]}: arity")
             self.uses_reads = True
             return (f"(envr.{e[1][1]} {' '.join(self.pure(a, env)[0] for a in args_)})", rty_)
+        if e[0] == "call" and e[1] == ("path", ["Vec", "new"]) and all(self.strip(a) in (("var", "e"), ("var", "_e")) for a in e[2]):
+            return ("[]", "Vec<?>")
         if e[0] == "struct":
             flds = getattr(self, "structs", {}).get(e[1])
             if flds is None or [f for f, _ in flds] != [f for f, _ in e[2]]:
@@ -1071,6 +1080,10 @@ class Gen:
             if not (at_ in NATTY or at_ == "int"):
                 raise Unsupported("Vec::get with an index of type " + at_)
             return (f"({rl}[{as_nat(al, at_)}]?)", f"Option<{rt[4:-1]}>")
+        if rt.startswith("Vec<") and name == "contains" and len(args) == 1:
+            al, at_ = self.pure(args[0], env)
+            elt = rt[4:-1]
+            return (f"(decide ({as_nat(al, at_) if elt in NATTY else al} ∈ {rl}))", "bool")
         if rt.startswith("Vec<") and name == "len" and not args:
             return (f"(List.length {rl})", "u32")
         if rt in NATTY and name == "div_ceil" and len(args) == 1:
@@ -1533,6 +1546,16 @@ class Gen:
                 if e[0] == "call" and e[1][0] == "var" and e[1][1].startswith("emit_") and (self.cur_ns, e[1][1]) not in self.sigs:
                     # event emission: not part of the functional state (events are compared by the correspondence run)
                     return go(i + 1, env)
+            if s[0] == "expr":
+                e = self.strip(s[1])
+                if e[0] == "mcall" and e[2] == "push_back" and len(e[3]) == 1 and self.strip(e[1])[0] == "var" \
+                        and env.get(self.strip(e[1])[1], ("", ""))[1].startswith("Vec<"):
+                    vn = self.strip(e[1])[1]
+                    old, vt_ = env[vn]
+                    def kpb(a, t):
+                        elt = vt_[4:-1]
+                        return go(i + 1, dict(env, **{vn: (f"({old} ++ [{as_nat(a, t) if elt in NATTY else a}])", vt_)}))
+                    return self.tr(e[3][0], env, kpb, ret)
             if s[0] == "expr" and getattr(self, "store", None):
                 e = self.strip(s[1])
                 if e[0] == "mcall" and self.is_storage(e[1]):
@@ -1916,6 +1939,9 @@ FILES_MERKLE = [("Merkle", "packages/contract-utils/src/crypto/hashable.rs", ["c
                 ("Merkle", "packages/contract-utils/src/crypto/merkle.rs", ["verify", "verify_with_index"])]
 TYMAPS_MERKLE = {"packages/contract-utils/src/crypto/hashable.rs": {"H": "Bytes32", "S": "Hasher!", "Output": "Bytes32"},
                  "packages/contract-utils/src/crypto/merkle.rs": {"H": "Hasher!"}}
+STORE_CTI = {"Topics": {"ClaimTopics": ([], "Vec<u32>"), "ClaimTopicIssuers": (["u32"], "Vec<Address>")}}
+FILES_CTI = [("Topics", "packages/tokens/src/rwa/claim_topics_and_issuers/mod.rs", []),
+             ("Topics", "packages/tokens/src/rwa/claim_topics_and_issuers/storage.rs", ["get_claim_topics", "add_claim_topic"])]
 STORE_RT = {"RoleTransfer": {"Pending": ([], "Address", "temp"), "Active": ([], "Address")}}
 READS_RT = {"RoleTransfer": {"ledger_sequence": "u32", "min_temp_ttl": "u32", "max_ttl": "u32", "authorized": "addr2bool"}}
 FILES_RT = [("RoleTransfer", "packages/access/src/role_transfer/storage.rs", ["transfer_role", "accept_transfer"])]
@@ -2446,7 +2472,9 @@ def main():
                 sys.stdout.write(txt)
         sys.exit(rc)
     try:
-        if "--role-transfer" in sys.argv:
+        if "--topics" in sys.argv:
+            txt = translate(repo, FILES_CTI, reads={"Topics": {}}, store=STORE_CTI)
+        elif "--role-transfer" in sys.argv:
             txt = translate(repo, FILES_RT, imports=("OZ.Model.RustSemHost",), reads=READS_RT, store=STORE_RT,
                             tymaps={"packages/access/src/role_transfer/storage.rs": {"T": "Key!", "U": "Key!"}},
                             key_params={"pending_key": "Pending", "active_key": "Active"})
